@@ -15,11 +15,11 @@ meta = {
     "origin": "written by an independent sub-agent that saw only the property text and a scratch worktree of /repo",
     "needs_to_manifest": notes.strip()[:1500],
     "confirmed": {
-        "existing_suite_with_change": "13 failed, 55 passed (identical to the unchanged tree; the 13 are the pre-existing tensorflow / pkg_resources failures)",
+        "existing_suite_with_change": "12 failed, 56 passed (identical to the unchanged tree at that commit)",
         "demo_with_change": "exit 1 (FAIL)", "demo_without_change": "exit 0 (PASS)",
-        "how": "harness/seedconfirm.sh %s in the scratch worktree" % sid,
+        "how": "harness/seedtest.sh %s %s (private worktree of /repo's HEAD + patch)" % (sid, checks.replace(",", " ")),
     },
-    "checks_run": ["git -C /repo apply seeded/%s/patch.diff; ./check %s --tier quick; git -C /repo checkout -- ." % (sid, c) for c in checks.split(",")],
+    "checks_run": ["harness/seedtest.sh %s %s" % (sid, checks.replace(",", " "))],
     "caught": caught == "yes",
     "outcome": outcome,
 }
